@@ -1261,6 +1261,7 @@ var Rules = []report.Rule{
 	{ID: "G17", Floor: 5, Props: []string{"C13"}, Text: "no error is dropped outside the accepted-idiom table; main turns a run() error into a non-zero exit"},
 	{ID: "G19", Floor: 4, Props: []string{"C01", "C02", "C11", "C14"}, Text: "scheduleFlowAndToposort gives every function one DependsOn edge per provider of each of its dependency types (predicate sentinels included), unconditionally"},
 	{ID: "G20", Floor: 1, Props: []string{"C13", "C15"}, Text: "AST nodes constructed by the generator carry no source position (the expression printer hoists exactly the positioned, i.e. user-written, expressions)"},
+	{ID: "G46", Floor: 20, Props: []string{"C13"}, Text: "every index into (or slice of) the argument list of a user call expression is in range for every argument count >= 1 the dominating tests admit: one multi-value call may stand for the whole argument list (`cff.Slice(f())` has one argument expression)"},
 	{ID: "G21", Floor: 8, Props: []string{"C13"}, Text: "every index into a slice/tuple whose length is the arity of a user function is in range for every length the dominating tests admit (evaluated per hypothesis len == 0..6)"},
 	{ID: "G23", Floor: 1, Props: []string{"C13"}, Text: "(*types.Package).Path/Name on Obj().Pkg() (nil for universe objects such as error) is dominated by a nil test"},
 	{ID: "G24", Floor: 3, Props: []string{"C13", "C14"}, Text: "results of the compiler's may-return-nil constructors are nil-tested before any field access, also after being stored in a slice that is ranged over later"},
@@ -1318,6 +1319,7 @@ func Run(repo *load.Repo, s *report.Sink) error {
 		{[]string{"G43"}, c.syntaxMemo},
 		{[]string{"G44"}, c.fileNames},
 		{[]string{"G45"}, c.importNames},
+		{[]string{"G46"}, c.argBounds},
 		{[]string{"G29"}, c.structuralAssertions},
 	}
 	for _, st := range steps {
